@@ -138,17 +138,27 @@ def texture_faults(A, f, n, bound):
     return out
 
 
-def ref_deformation_gradient(F0, Lfun, posfun, t0, t1):
-    """High-accuracy reference solution of dF/dt = L(t, x(t)) F."""
+def ref_deformation_gradient(F0, Lfun, posfun, t0, t1, breaks=()):
+    """High-accuracy reference solution of dF/dt = L(t, x(t)) F (piecewise across `breaks`,
+    the discontinuities of L in time)."""
     from scipy.integrate import solve_ivp
 
-    def rhs(t, y):
-        return (np.asarray(Lfun(t, posfun(t)), float) @ y.reshape(3, 3)).ravel()
+    pts = [t0] + sorted(b for b in breaks if min(t0, t1) < b < max(t0, t1)) + [t1]
+    y = np.asarray(F0, float).ravel()
+    for a, b in zip(pts[:-1], pts[1:]):
+        end = np.nextafter(b, a) if b in breaks else b
 
-    sol = solve_ivp(rhs, (t0, t1), np.asarray(F0, float).ravel(), method="DOP853", rtol=1e-11, atol=1e-13)
-    if not sol.success:
-        raise RuntimeError("reference F integration failed: " + sol.message)
-    return sol.y[:, -1].reshape(3, 3)
+        # integrate in shifted time tau = t - a: absolute times may be huge (t ~ 1e9 with spans ~ 1),
+        # where a tight relative tolerance would ask for steps below the spacing of floats around t
+        def rhs(tau, y, a=a):
+            t = a + tau
+            return (np.asarray(Lfun(t, posfun(t)), float) @ y.reshape(3, 3)).ravel()
+
+        sol = solve_ivp(rhs, (0.0, end - a), y, method="DOP853", rtol=1e-11, atol=1e-13)
+        if not sol.success:
+            raise RuntimeError("reference F integration failed: " + sol.message)
+        y = sol.y[:, -1]
+    return y.reshape(3, 3)
 
 
 def accumulated_strain(Lfun, posfun, t0, t1, m=64):
